@@ -1,12 +1,16 @@
 #!/bin/bash
-# tools/suite.sh <agent-out-dir> <m>  : full pinned suite with the mutation applied, in a scratch worktree; prints summary.
+# tools/suite.sh <agent-out-dir> <m>  : the pinned suite (/root/.vp/BASELINE.json) with the mutation applied, in a scratch worktree;
+# reports how many of the baseline's stable_pass tests still pass.  Use <m>=BASE for the unchanged tree.
 # test_threaded.py::test_interrupt sends SIGINT to the main thread and intermittently kills an xdist worker on this
-# (loaded) machine, which can wedge the whole run; it is therefore run separately, serially, and reported next to the rest.
-OUT=$1; M=$2
+# (loaded) machine, which can wedge the whole run; it is therefore run separately, serially, and merged into the comparison.
+OUT=$1; M=$2; N=${SUITE_N:-8}
 W=/tmp/wt/suite-$(basename $OUT)-$M-$$
 git -C /repo worktree add -q --detach $W $(git -C /repo rev-parse HEAD) || exit 2
+if [ "$M" != BASE ]; then
 git -C $W apply $OUT/$M.diff || { echo "SUITE $(basename $OUT) $M APPLY-FAILED" | tee -a /tmp/wt/suite-results.txt; git -C /repo worktree remove --force $W; exit 0; }
-R=$(cd $W && PYTHONPATH=$W timeout 3000 /venv/bin/python -m pytest -q -p no:cacheprovider --timeout=900 --continue-on-collection-errors -n 8 --deselect "dask/tests/test_threaded.py::test_interrupt" 2>&1 | tail -1 | sed 's/\x1b\[[0-9;]*m//g')
-R2=$(cd $W && PYTHONPATH=$W timeout 300 /venv/bin/python -m pytest -q -p no:cacheprovider dask/tests/test_threaded.py -k test_interrupt 2>&1 | tail -1 | sed 's/\x1b\[[0-9;]*m//g')
+fi
+R=$(cd $W && PYTHONPATH=$W timeout 3000 /venv/bin/python -m pytest -q -p no:cacheprovider --timeout=900 --continue-on-collection-errors -n $N --junitxml=$W/j1.xml --deselect "dask/tests/test_threaded.py::test_interrupt" 2>&1 | tail -1 | sed 's/\x1b\[[0-9;]*m//g')
+R2=$(cd $W && PYTHONPATH=$W timeout 300 /venv/bin/python -m pytest -q -p no:cacheprovider --junitxml=$W/j2.xml dask/tests/test_threaded.py -k test_interrupt 2>&1 | tail -1 | sed 's/\x1b\[[0-9;]*m//g')
+C=$(python3 /verif/tools/junit_cmp.py $W/j1.xml $W/j2.xml 2>&1 | tail -1)
 git -C /repo worktree remove --force $W
-echo "SUITE $(basename $OUT) $M $R | test_interrupt: $R2" | tee -a /tmp/wt/suite-results.txt
+echo "SUITE $(basename $OUT) $M $C | $R | test_interrupt: $R2" | tee -a /tmp/wt/suite-results.txt
